@@ -554,6 +554,11 @@ class OptionsParser:
                 handler(self, option, value)
             else:
                 values = cast(List[str], self.options.setdefault(option, []))
+
+                if not isinstance(values, list):
+                    raise ValueError(f'Option {option} given both with '
+                                     'and without a value')
+
                 values.append(value)
         else:
             self.options[option] = True
